@@ -48,7 +48,12 @@ def _spec(case: dict) -> dict:
         else:
             for s in sp["stages"]:
                 s.setdefault("ctx", {})["_max_jumps"] = mj
-    sp["name"] = f"{shape}{case.get('body', '')}_t{times}_mj{mj}{level}"
+    if case.get("echo"):
+        for s_ in sp["stages"]:
+            for b in s_["t"]:
+                if b.get("kind") == "jump":
+                    b["echo_ctx"] = True
+    sp["name"] = f"{shape}{case.get('body', '')}_t{times}_mj{mj}{level}" + ("_echo" if case.get("echo") else "")
     # the order in which stages are listed (= stored, = iterated by the engine) is not
     # promised to be topological
     listing = case.get("listing", "topo")
@@ -73,7 +78,7 @@ def gen_cases(tier: str, seed: int) -> list[dict]:
                     if times > 13 and times != 10**6:
                         continue
                     for order in ("fifo", "random", "hold", "race", "sweep"):
-                        cases.append({"shape": shape, "body": rng.randint(2, 4), "times": times, "max_jumps": mj, "level": rng.choice(["wf", "stage"]), "order": order, "listing": rng.choice(["topo", "reversed", "shuffled"]), "seed": rng.randrange(1 << 30)})
+                        cases.append({"shape": shape, "body": rng.randint(2, 4), "times": times, "max_jumps": mj, "level": rng.choice(["wf", "stage"]), "order": order, "listing": rng.choice(["topo", "reversed", "shuffled"]), "echo": rng.random() < 0.25, "seed": rng.randrange(1 << 30)})
         for back in (1, 2, 3):
             for order in ("fifo", "random", "race"):
                 cases.append({"shape": "fwdback", "times": back, "order": order, "seed": rng.randrange(1 << 30)})
